@@ -47,41 +47,30 @@ shutil.rmtree(d, ignore_errors=True)
 print(json.dumps(out))
 '''
 
+def _numty(e, it, k):
+    NT = it.lookup_global(e.module(TY), "NumericType")
+    return it.call(NT, [it.getattr(it.getattr(NT, "Kind"), k)], {})
 
-def run(chk):
-    e = mk_engine(chk)
-    B.install_models(e)
-    worldref = [None]
-    install_class_models(e, worldref)
-    e.func_info(TY, "NumericType.Kind.__lt__")
+
+def _mk_ctx(it, log):
+    def gif(ty, name):
+        log.append(("get_instance_func", ty, name))
+
+        def check_call(args, exp, node, ctx):
+            log.append(("check_call", ty, name, list(args), exp))
+            return (("COERCED", name, args[0]), {})
+        return SObj(ClassVal("Func"), {"check_call": Builtin("check_call", check_call)})
+    return SObj(ClassVal("Ctx"), {"globals": SObj(ClassVal("Globals"), {"get_instance_func": Builtin("gif", gif)})})
+
+
+def try_coerce_obligations(chk, e, tag=""):
+    """try_coerce_to over all kind pairs (+ a non-numeric actual / expected): coerces iff strictly
+    widening, by ONE direct call of the conversion method named after the target kind (so
+    nat -> float goes through nat.__float__ = convert_u, never through a signed reading).
+    Shared with C04 (mixed-type operands reach the operator through this function)."""
     e.func_info(EC, "try_coerce_to")
-    e.func_info(EC, "check_type_against")
-
-    def numty(it, k):
-        NT = it.lookup_global(e.module(TY), "NumericType")
-        return it.call(NT, [it.getattr(it.getattr(NT, "Kind"), k)], {})
-
-    # ---- Kind ordering == Nat < Int < Float
-    for a in KINDS:
-        for b in KINDS:
-            def t(it, a=a, b=b):
-                NT = it.lookup_global(e.module(TY), "NumericType")
-                K = it.getattr(NT, "Kind")
-                return it.cmp("<", it.getattr(K, a), it.getattr(K, b))
-            paths = e.explore(t)
-            chk.prove_paths(f"Kind.{a}<Kind.{b}=={ORDER[a] < ORDER[b]}", paths,
-                            lambda p, a=a, b=b: z3.BoolVal(p.kind == "return" and p.value is (ORDER[a] < ORDER[b])), func=f"{TY}:NumericType.Kind.__lt__")
-
-    # ---- try_coerce_to over all kind pairs (+ a non-numeric actual / expected)
-    def mk_ctx(it, log):
-        def gif(ty, name):
-            log.append(("get_instance_func", ty, name))
-
-            def check_call(args, exp, node, ctx):
-                log.append(("check_call", ty, name, list(args), exp))
-                return (("COERCED", name, args[0]), {})
-            return SObj(ClassVal("Func"), {"check_call": Builtin("check_call", check_call)})
-        return SObj(ClassVal("Ctx"), {"globals": SObj(ClassVal("Globals"), {"get_instance_func": Builtin("gif", gif)})})
+    numty = lambda it, k: _numty(e, it, k)  # noqa: E731
+    mk_ctx = _mk_ctx
     cases = [(a, b) for a in KINDS + ["None"] for b in KINDS + ["None"]]
     for a, b in cases:
         def t(it, a=a, b=b):
@@ -106,9 +95,36 @@ def run(chk):
                   and log[1][:3] == ("check_call", act, name) and log[1][3] == ["NODE"]
                   and isinstance(log[1][4], SObj) and log[1][4].cls.name == "NumericType" and log[1][4].fields["kind"] is exp.fields["kind"])
             return z3.BoolVal(ok)
-        chk.prove_paths(f"try_coerce_to({a}->{b}):coerces<=>strictly-widening/\\calls-{a}.__{b.lower()}__-directly-once", paths, post, func=f"{EC}:try_coerce_to",
+        chk.prove_paths(f"{tag}try_coerce_to({a}->{b}):coerces<=>strictly-widening/\\calls-{a}.__{b.lower()}__-directly-once", paths, post, func=f"{EC}:try_coerce_to",
                         replay=(lambda m, a=a, b=b: {"script": REPLAY, "input": {"src": a.lower(), "dst": b.lower(), "v": (1 << 63) if a == "Nat" else -5}})
                         if (a != "None" and b != "None" and ORDER[a] < ORDER[b]) else None)
+
+
+
+def run(chk):
+    e = mk_engine(chk)
+    B.install_models(e)
+    worldref = [None]
+    install_class_models(e, worldref)
+    e.func_info(TY, "NumericType.Kind.__lt__")
+    e.func_info(EC, "try_coerce_to")
+    e.func_info(EC, "check_type_against")
+
+    numty = lambda it, k: _numty(e, it, k)  # noqa: E731
+    mk_ctx = _mk_ctx
+
+    # ---- Kind ordering == Nat < Int < Float
+    for a in KINDS:
+        for b in KINDS:
+            def t(it, a=a, b=b):
+                NT = it.lookup_global(e.module(TY), "NumericType")
+                K = it.getattr(NT, "Kind")
+                return it.cmp("<", it.getattr(K, a), it.getattr(K, b))
+            paths = e.explore(t)
+            chk.prove_paths(f"Kind.{a}<Kind.{b}=={ORDER[a] < ORDER[b]}", paths,
+                            lambda p, a=a, b=b: z3.BoolVal(p.kind == "return" and p.value is (ORDER[a] < ORDER[b])), func=f"{TY}:NumericType.Kind.__lt__")
+
+    try_coerce_obligations(chk, e)
 
     # ---- check_type_against: coercion only after unification failed, never the reverse direction
     e.models["guppylang_internals.checker.errors.type_errors:TypeMismatchError"] = lambda it2, a, k: SObj(ClassVal("Diag"), {"kind": "TypeMismatchError"})
